@@ -50,10 +50,13 @@ def path_fn(plan: dict[str, Any]) -> Callable[[symx.Engine], Any]:
     scenario, config, mons = plan["scenario"], plan["config"], plan["monitors"]
 
     def fn(eng: symx.Engine) -> Any:
-        run = trav.prepare(eng, scenario, config)
-        if plan.get("setup"):
-            plan["setup"](run)
-        trav.traverse(run, plan.get("traverse_params"))
+        if isinstance(scenario, trav.ToolScenario):
+            run = trav.run_tool(eng, scenario, config)
+        else:
+            run = trav.prepare(eng, scenario, config)
+            if plan.get("setup"):
+                plan["setup"](run)
+            trav.traverse(run, plan.get("traverse_params"))
         findings = []
         for m in mons:
             findings += m(run)
@@ -65,7 +68,8 @@ def path_fn(plan: dict[str, Any]) -> Callable[[symx.Engine], Any]:
             "nonpass": sum(1 for e in run.trace if e["kind"] == "end" and e["status"] != "PASS"),
             "missing": sum(1 for e in run.trace if e["kind"] == "start" and e["missing"]),
             "unsets": sum(1 for e in run.trace if e["kind"] == "door" and e["action"] == "unset"),
-            "sample": [f"{e['worker']}:{monitors._short(e['bridged'])}={e.get('status')}" for e in run.trace if e["kind"] == "start"],
+            "sample": [f"{e['worker']}:{monitors._short(e['bridged'])}={e.get('status')}" for e in run.trace if e["kind"] == "start"]
+            + [f"{e['worker']}:unset:{r[0].split('|')[0]}:{r[1]}" for e in run.trace if e["kind"] == "door" and e["action"] == "unset" for r in e["requests"]],
             "pool": [f"{w}:{o.split('|')[0]}:{s}={v}" for (w, o, s, v) in run.asked],
         }
         if findings:
